@@ -4,3 +4,4 @@ import Props.C16
 #print axioms C16.unreachable_sound
 #print axioms C16.conditional_while_not_blocking
 #print axioms C16.while_true_break_not_blocking
+#print axioms C16.pure_sound
